@@ -5,7 +5,8 @@
    schema -> exec -> format -> mkdir -> stat -> write, FS model, at most one fault, exit status) against the
    contract (Frame, ParentsOnlyCreated, NoClobber, OldOrNew, FailedFileUntouched, WriteOnlyAfterAllStagesOk,
    ExitZeroIffAllWritten, ImplMeetsContract) over every initial state of three output paths x every effective
-   force-file-write x every single failing step of any one file x every file order -- for the code as it is
+   force-file-write x (every single failing step of any one file | one stage failing for every file that shares its
+   cause: one custom template / schema / template-data used by two or all three files) x every file order -- for the code as it is
    (returns at the first failing file) and for the refactor that goes on (thorough tier).
 2. TLC exports every world with the contract's expectation (allowed final state of every designated path, exit
    class, frame).  Each selected world is materialised (scratch module, three packages -> three output files,
@@ -53,11 +54,22 @@ PROBES = os.path.join(os.path.dirname(os.path.abspath(__file__)), "..", "probes"
 TEMPLATES = {"tmpl/" + n: open(os.path.join(PROBES, n)).read() for n in sorted(os.listdir(PROBES)) if n != "README.txt"}
 FAULT_VARIANTS = {
     "template": ["missing-file", "unknown-name", "schema-missing"],
-    "schema": ["bad-data-pkg", "bad-data-iface", "bad-data-entry", "custom-schema"],
+    "schema": ["bad-data-pkg", "bad-data-iface", "bad-data-entry", "custom-schema", "lookalike-iface", "lookalike-entry"],
     "exec": ["badexec", "badexec2", "badparse"],
     "format": ["badfmt-gofmt", "badfmt-goimports"],
     "mkdir": ["failpoint"], "stat": ["failpoint"], "write": ["failpoint"],
 }
+# one cause shared by several output files (fault kind "shared"): every variant is replayed for a selected world
+SHARED_VARIANTS = {
+    "template": ["shared-missing-template-noop", "shared-missing-template-fmt", "shared-missing-schema", "shared-unparsable-schema",
+                 "shared-unknown-name"],
+    "schema": ["shared-custom-schema-violated", "shared-builtin-bad-data"],
+    "exec": ["shared-badexec", "shared-badexec2", "shared-badparse"],
+    "format": ["shared-badfmt-gofmt", "shared-badfmt-goimports"],
+}
+# conforming value at the less specific level / value of another JSON type that PRINTS the same at the more specific one
+LOOKALIKE = {"bool": {"testify": ("unroll-variadic", False, "false"), "matryer": ("skip-ensure", False, "false")},
+             "int": {"testify": ("mock-build-tags", "1", 1), "matryer": ("mock-build-tags", "1", 1)}}
 _dirseq = iter(range(1, 10 ** 9))
 _dirlock = threading.Lock()
 
@@ -88,20 +100,25 @@ def make_profiles(rng, n):
     return out
 
 
-def choose(case, profiles, levels, rng):
+def choose(case, profiles, levels, rng, variant=None):
     """every random decision of the concretisation of one world (stored with the case; replay re-uses it)"""
     w = case["world"]
     prof = rng.choice(profiles)
     ch = {"profile": prof["id"], "root": rng.choice(["unset", "unset", "T", "F"]),
           "listing": {}, "levels": {}, "mocks_dir_exists": rng.random() < 0.5, "missing_in": rng.choice(FILES)}
     fault = w["fault"]
-    variant = None
     if fault["kind"] == "stage":
         variant = rng.choice(FAULT_VARIANTS[fault["at"]])
+    elif fault["kind"] == "shared" and variant is None:
+        variant = rng.choice(SHARED_VARIANTS[fault["at"]])
     ch["variant"] = variant
+    ch["lookalike"] = rng.choice(["bool", "int"])
+    ch["shared_fmt"] = rng.choice(["noop", "gofmt", "goimports"])
+    ch["shared_builtin"] = rng.choice(["testify", "matryer"])
+    ch["shared_at_root"] = fault["kind"] == "shared" and len(fault["files"]) == len(FILES) and rng.random() < 0.5
     for f in FILES:
         listing = rng.choice(["all", "listed", "all+listed"])
-        if fault["kind"] == "stage" and fault["file"] == f and variant in ("bad-data-iface", "bad-data-entry"):
+        if fault["kind"] == "stage" and fault["file"] == f and variant in ("bad-data-iface", "bad-data-entry", "lookalike-iface", "lookalike-entry"):
             listing = rng.choice(["listed", "all+listed"])
         if f == "f3" and prof["double"] and listing == "all":
             listing = rng.choice(["listed", "all+listed"])      # two config entries (two mocks of C) need the interface listed
@@ -166,8 +183,10 @@ def build(root, case, ch, profiles, clean=False):
             pkgcfg["all"] = True
         t = prof["tmpl"][f]
         faulty = fault["kind"] == "stage" and fault["file"] == f
-        variant = ch["variant"] if faulty else None
-        if variant in ("bad-data-pkg", "bad-data-iface", "bad-data-entry") and t in ("custom", "customschema"):
+        shared = fault["kind"] == "shared" and f in fault["files"]
+        variant = ch["variant"] if (faulty or shared) else None
+        if variant in ("bad-data-pkg", "bad-data-iface", "bad-data-entry", "lookalike-iface", "lookalike-entry") \
+                and t in ("custom", "customschema"):
             t = "testify"       # a built-in template so that a schema is consulted
         if t in ("testify", "matryer"):
             pkgcfg["template"] = t
@@ -228,8 +247,38 @@ def build(root, case, ch, profiles, clean=False):
             pkgcfg.update({"template": f"file://{A}/tmpl/badfmt.templ", "require-template-schema-exists": False,
                            "formatter": variant.split("-")[1]})
             pkgcfg.pop("template-data", None)
+        elif variant in ("lookalike-iface", "lookalike-entry"):
+            # conforming value at package level, a value of another JSON type that prints the same further down
+            key, good, bad = LOOKALIKE[ch["lookalike"]][pkgcfg["template"]]
+            pkgcfg["template-data"] = {key: good}
+            ic = icfgs[ch["bad_iface"]]
+            if variant == "lookalike-iface":
+                ic.setdefault("config", {})["template-data"] = {key: bad}
+            else:
+                if not ic.get("configs"):
+                    ic["configs"] = [{}]
+                ic["configs"][-1]["template-data"] = {key: bad}
         elif variant == "failpoint":
             failspec = f"{fault['at']}:{out_rel(lay, f)}"
+        if shared:
+            # ONE template / schema / template-data for every file in fault.files: identical values, written once at
+            # the top level (when all files share) or repeated at package level
+            sh = {"shared-missing-template-noop": {"template": f"file://{A}/tmpl/does-not-exist.templ", "require-template-schema-exists": False, "formatter": "noop"},
+                  "shared-missing-template-fmt": {"template": f"file://{A}/tmpl/does-not-exist.templ", "require-template-schema-exists": False, "formatter": "gofmt"},
+                  "shared-missing-schema": {"template": f"file://{A}/tmpl/noschema.templ", "require-template-schema-exists": True, "formatter": ch["shared_fmt"]},
+                  "shared-unparsable-schema": {"template": f"file://{A}/tmpl/badschema.templ", "require-template-schema-exists": True, "formatter": ch["shared_fmt"]},
+                  "shared-unknown-name": {"template": "nosuchtemplate", "formatter": ch["shared_fmt"]},
+                  "shared-custom-schema-violated": {"template": f"file://{A}/tmpl/withschema.templ", "template-data": {"other": 1}, "formatter": ch["shared_fmt"]},
+                  "shared-builtin-bad-data": {"template": ch["shared_builtin"], "template-data": {"bogus-key": 1}, "formatter": ch["shared_fmt"]},
+                  "shared-badexec": {"template": f"file://{A}/tmpl/badexec.templ", "require-template-schema-exists": False, "formatter": ch["shared_fmt"]},
+                  "shared-badexec2": {"template": f"file://{A}/tmpl/badexec2.templ", "require-template-schema-exists": False, "formatter": ch["shared_fmt"]},
+                  "shared-badparse": {"template": f"file://{A}/tmpl/badparse.templ", "require-template-schema-exists": False, "formatter": ch["shared_fmt"]},
+                  "shared-badfmt-gofmt": {"template": f"file://{A}/tmpl/badfmt.templ", "require-template-schema-exists": False, "formatter": "gofmt"},
+                  "shared-badfmt-goimports": {"template": f"file://{A}/tmpl/badfmt.templ", "require-template-schema-exists": False, "formatter": "goimports"},
+                  }[variant]
+            for k in ("template", "template-data", "require-template-schema-exists", "formatter"):
+                pkgcfg.pop(k, None)
+            (conf if ch["shared_at_root"] else pkgcfg).update(sh)
         pc = {"config": pkgcfg}
         if listing != "all":
             pc["interfaces"] = icfgs
@@ -362,7 +411,7 @@ class Replayer:
             self.runs.append((r, item["id"]))
         out = []
         fault = w["fault"]
-        base_sig = {"stage": fault["at"] if fault["kind"] == "stage" else "none", "variant": ch["variant"] or "none",
+        base_sig = {"stage": fault["at"] if fault["kind"] in ("stage", "shared") else "none", "variant": ch["variant"] or "none",
                     "layout": prof["layout"]}
         detail = {"case": case, "choices": ch, "profile": prof, "config": conf, "failpoint": failspec,
                   "run": r.brief(), "designated": des}
@@ -390,7 +439,7 @@ class Replayer:
                 o = "other"
             outcome[f] = o
             if o not in exp["final"][f]:
-                role = "faulted-file" if fault.get("file") == f else "other-file"
+                role = "faulted-file" if f in fault.get("files", ()) else "other-file"
                 got_txt = (d / rel).read_text(errors="replace")[:400] if (d / rel).is_file() else str(a)
                 out.append((dict(base_sig, kind="final-state", outcome=o, allowed="|".join(sorted(exp["final"][f])),
                                  init=w["fs0"][f], force=bool(w["force"][f]), role=role),
@@ -416,38 +465,55 @@ class Replayer:
                         dict(detail, path=rel, before=b, after=a)))
         if not out and not os.environ.get("VERIF_KEEP"):
             shutil.rmtree(d, ignore_errors=True)       # thousands of worlds in the thorough tier
-        summary = {"id": item["id"], "fs0": w["fs0"], "force": w["force"], "fault": {k: fault[k] for k in ("kind", "file", "at")},
+        summary = {"id": item["id"], "fs0": w["fs0"], "force": w["force"], "fault": {k: fault[k] for k in ("kind", "file", "files", "at")},
                    "variant": ch["variant"], "layout": prof["layout"], "exit": r.code, "expected": exp["exit"],
                    "outcome": outcome, "allowed": exp["final"]}
         return out, summary
 
 
 # ------------------------------------------------------------------------------------------------ selection of worlds
+def writable(w, f):
+    return w["fs0"][f] == "absent" or (w["fs0"][f] in ("gen", "user") and w["force"][f])
+
+
+def cls(w, f):
+    st = w["fs0"][f]
+    return st if st in ("absent", "dir") else ("replaceable" if w["force"][f] else "blocked")
+
+
 def stratum(case):
     w = case["world"]
     fl = w["fault"]
+    if fl["kind"] == "shared":
+        # how many of the files that share the cause could be clobbered by a run that mishandles the later ones
+        nw = sum(1 for f in fl["files"] if writable(w, f))
+        wr = "all" if nw == len(fl["files"]) else "some" if nw else "none"
+        return ("shared", fl["at"], len(fl["files"]), wr, wr == "all" and any(w["fs0"][f] != "absent" for f in fl["files"]))
     if fl["kind"] == "stage":
         f = fl["file"]
         return ("stage", fl["at"], w["fs0"][f], w["force"][f])
     if w["missing"]:
         return ("missing-interface", any(w["fs0"][f] != "absent" and not w["force"][f] for f in FILES))
-    return ("none", tuple(sorted((w["fs0"][f], w["force"][f]) for f in FILES)))
+    return ("none", tuple(sorted(cls(w, f) for f in FILES)))
 
 
-def select(cases, n, rng):
+def select(cases, n, rng, shared_fill):
+    """one world per stratum, then a random fill up to n (quick: the fill leaves shared-cause worlds to the strata, because
+    each of those is replayed once per variant)"""
     by = {}
     for i, c in enumerate(cases):
         by.setdefault(stratum(c), []).append(i)
     picked = set()
     for k in sorted(by, key=repr):
         picked.add(rng.choice(by[k]))
-    rest = [i for i in range(len(cases)) if i not in picked]
+    strata_picks = set(picked)
+    rest = [i for i in range(len(cases)) if i not in picked and (shared_fill or cases[i]["world"]["fault"]["kind"] != "shared")]
     rng.shuffle(rest)
     for i in rest:
         if len(picked) >= n:
             break
         picked.add(i)
-    return sorted(picked)
+    return sorted(picked), strata_picks
 
 
 def vacuity(cases):
@@ -462,6 +528,9 @@ def vacuity(cases):
         "either-old-or-new": lambda w, e: any(sorted(e["final"][f]) == ["new", "old"] for f in FILES),
         "zero exit expected": lambda w, e: e["exit"] == "zero",
         "a missing interface": lambda w, e: w["missing"],
+        "a cause shared by all files": lambda w, e: w["fault"]["kind"] == "shared" and len(w["fault"]["files"]) == 3,
+        "a cause shared by two files with the third writable": lambda w, e: w["fault"]["kind"] == "shared" and len(w["fault"]["files"]) == 2
+        and any(sorted(e["final"][f]) == ["new", "old"] for f in FILES),
     }
     bad = [k for k, p in need.items() if not some(p)]
     if bad:
@@ -507,7 +576,10 @@ def run(ctx):
     t_mc = bg("mc", "PipelineMC", f"Pipeline_c10_mc_{tier}.cfg", workers=6 if thorough else 4, timeout=2400, count=False,
               coverage=thorough)
     t_lv = bg("levels", "PipelineLevels", "Pipeline_levels.cfg", workers=1, timeout=300, count=False)
+    phase = {}
+    tp = time.time()
     ctx.mockery()
+    phase["build"] = round(time.time() - tp, 1)
     r_lv = joined(t_lv, "levels")
     if not r_lv.ok:
         raise MachineryError("TLC failed on the LEVELS export:\n" + r_lv.tail())
@@ -519,8 +591,10 @@ def run(ctx):
     r_cases = joined(t_cases, "cases")
     if not r_cases.ok:
         raise MachineryError("TLC failed on the case export:\n" + r_cases.tail())
+    tp = time.time()
     cases = r_cases.prints("CASE")
-    if len(cases) < 10000:
+    phase["wait_and_parse_cases"] = round(time.time() - tp, 1)
+    if len(cases) < 19000:
         raise MachineryError(f"only {len(cases)} worlds exported")
     vacuity(cases)
 
@@ -533,9 +607,16 @@ def run(ctx):
         rp.profiles = profiles = [det["profile"]] * (det["profile"]["id"] + 1)
         items = [{"id": "replay", "case": det["case"], "choices": det["choices"]}]
     else:
-        n = int(os.environ.get("VERIF_C10_N") or (3600 if thorough else 260))      # VERIF_C10_N: development knob
-        idx = select(cases, n, rng)
-        items = [{"id": i, "case": cases[i], "choices": choose(cases[i], profiles, levels, rng)} for i in idx]
+        n = int(os.environ.get("VERIF_C10_N") or (3600 if thorough else 230))      # VERIF_C10_N: development knob
+        idx, strata_picks = select(cases, n, rng, shared_fill=thorough)
+        items = []
+        for i in idx:
+            fl = cases[i]["world"]["fault"]
+            if fl["kind"] == "shared" and i in strata_picks:      # every variant of the shared cause
+                for v in SHARED_VARIANTS[fl["at"]]:
+                    items.append({"id": f"{i}/{v}", "case": cases[i], "choices": choose(cases[i], profiles, levels, rng, variant=v)})
+            else:
+                items.append({"id": i, "case": cases[i], "choices": choose(cases[i], profiles, levels, rng)})
     t0 = time.time()
     results = pipetrace.pmap(rp.replay, items, workers=12 if thorough else 10)
     replay_wall = time.time() - t0
@@ -550,11 +631,15 @@ def run(ctx):
     ctx.cov["evaluations"] += len(items)
     # measured coverage of the replayed worlds
     stats = {"failed_stage": 0, "failpoint": 0, "blocked_by_existing": 0, "overwritten_with_force": 0, "dir_at_path": 0,
-             "written_before_failure_elsewhere": 0, "not_reached_after_failure": 0, "zero_exit": 0}
+             "written_before_failure_elsewhere": 0, "not_reached_after_failure": 0, "zero_exit": 0, "shared_cause": 0,
+             "shared_cause_all_writable": 0}
     for s in summaries:
         fl = s["fault"]
-        if fl["kind"] == "stage":
+        if fl["kind"] in ("stage", "shared"):
             stats["failed_stage" if fl["at"] in STEPS[:4] else "failpoint"] += 1
+        if fl["kind"] == "shared":
+            stats["shared_cause"] += 1
+            stats["shared_cause_all_writable"] += all(writable(s, f) for f in fl["files"])
         stats["zero_exit"] += s["exit"] == 0
         for f in FILES:
             if s["fs0"][f] in ("gen", "user") and not s["force"][f]:
@@ -573,13 +658,16 @@ def run(ctx):
         if zero:
             raise MachineryError("vacuous replay, never observed: " + ", ".join(zero))
     for s in summaries[:2] + [s for s in summaries if s["fault"]["kind"] == "stage"][:2] + \
+            [s for s in summaries if s["fault"]["kind"] == "shared"][:1] + \
             [s for s in summaries if any(v == "new" and s["fs0"][f] != "absent" for f, v in s["outcome"].items())][:1]:
         ctx.sample(s)
 
     # ------------------------------------------------------------ 3. code -> spec: every hook trace through PipelineTrace
     runs = [r for r, _ in rp.runs]
     labels = [lab for _, lab in rp.runs]
+    tp = time.time()
     rej = pipetrace.validate_runs(ctx, runs)
+    phase["trace_validation"] = round(time.time() - tp, 1)
     badidx = {x["index"] for x in rej}
     good = next((r for k, r in enumerate(runs) if k not in badidx and r.code == 0 and any(e.get("ev") == "Write" for e in r.trace)), None)
     if good is None:
@@ -598,7 +686,10 @@ def run(ctx):
         ctx.note(f"drift: {len(rej.drift)} run(s) accepted by the contract but not shaped like Pipeline.tla's code layer: {kinds}")
 
     # ------------------------------------------------------------ 4. model-check verdict (Impl => Contract)
+    tp = time.time()
     r_mc = joined(t_mc, "mc")
+    phase["wait_model_check"] = round(time.time() - tp, 1)
+    ctx.cov["phase_wall_s"] = phase
     if not r_mc.ok:
         raise MachineryError(f"TLC: code-shaped model vs contract failed on {r_mc.cfg} ({r_mc.violated}):\n" + r_mc.tail())
     ctx.cov["states"] += r_mc.distinct + r_cases.distinct
@@ -618,7 +709,7 @@ def run(ctx):
                 raise MachineryError(f"vacuity witness {inv} was not violated: the model never gets there\n" + rw.tail())
     ctx.cov["distinct_nontrivial"] = sum(1 for s in summaries if s["fault"]["kind"] != "none" or any(v != "absent" for v in s["fs0"].values()))
     ctx.cov["rule"] = ("worlds = initial state of 3 output paths x effective force-file-write x (no fault | one failing step of one "
-                       "file) x missing interface; non-trivial = a fault or an occupied output path; quick replays a seeded "
+                       "file | one stage failing for 2 or 3 files that share its cause, every variant of the cause) x missing interface; non-trivial = a fault or an occupied output path; quick replays a seeded "
                        "stratified sample (one per (step, state, force) stratum at least), thorough a larger one")
     ctx.cov["worlds_exported"] = len(cases)
     ctx.cov["replayed"] = stats
